@@ -33,7 +33,9 @@ Definition corr_zone (c : zcase) : bool :=
 (* what the datetime library itself promises (PEP 495): a timestamp survives the trip through
    its wall-clock reading and fold *)
 Definition oracle_zone (c : zcase) : bool :=
-  forallb (fun p => let '(t, _, _, t') := p in t' =? t) (zc_u2w c).
+  forallb (fun p => let '(t, _, _, t') := p in t' =? t) (zc_u2w c) &&
+  (* the hypothesis of the look-back theorem (anchor_before) about the zone table *)
+  zone_spread_ok (zc_zone c).
 
 (* ------------------------------------------------------------------------------------------ *)
 (* part "rrule": rrule_model against dateutil.rrule itself                                     *)
